@@ -311,6 +311,7 @@ PROPS = {
     'src:ArgumentParser::take_*': ['C09'],
     'src:parse_field checks': ['C09', 'C03'],
     'src:bitenum count checks': ['C10'],
+    'src:finished_argument': ['C09', 'C17'],
 }
 
 N_UNIT = """
@@ -544,6 +545,33 @@ class RegionTr:
         self.consts = consts
         self.fresh = 0
         self.whole = whole      # the statements are a whole function body: `return Ok(..)` accepts
+        self.rej = 'false'      # what an early `return Err(..)` / a panic yields
+        self.bound_log = []     # names bound by let / patterns, in order (block scoping of shadowed names)
+
+    def bind(self, name, v):
+        self.bound_log.append(name)
+        self.env[name] = v
+
+    def scoped(self, k):
+        """a continuation that first drops the names bound (and possibly shadowed) since now: leaving a block"""
+        mark = len(self.bound_log)
+        pre = dict(self.env)
+
+        def k2():
+            cur = dict(self.env)
+            log = list(self.bound_log)
+            for n in set(self.bound_log[mark:]):
+                if n in pre:
+                    self.env[n] = pre[n]
+                else:
+                    self.env.pop(n, None)
+            del self.bound_log[mark:]       # an enclosing block must not undo what happens to these names after this block
+            try:
+                return k()
+            finally:
+                self.env = cur
+                self.bound_log[:] = log
+        return k2
 
     def name(self, base):
         self.fresh += 1
@@ -666,7 +694,7 @@ class RegionTr:
             if m == 'len' and rv and rv[0] == 'ranges' and not e['args']:
                 return 'N', '(N.of_nat (List.length %s))' % rv[1]
             if m == 'is_empty' and rv and rv[0] == 'ranges' and not e['args']:
-                return 'bool', '(N.of_nat (List.length %s) =? 0)' % rv[1]
+                return 'bool', '(match %s with [] => true | _ => false end)' % rv[1]
             if m in ('is_none', 'is_some') and rv and rv[0] in ('opt', 'some') and not e['args']:
                 if rv[0] == 'some':
                     return 'bool', 'false' if m == 'is_none' else 'true'
@@ -735,7 +763,7 @@ class RegionTr:
             except Untranslatable:
                 pan = None
             if pan is not None:
-                return k(OPAQUE) if pan == 'false' else 'false' if pan == 'true' else '(if %s then false else %s)' % (pan, k(OPAQUE))
+                return k(OPAQUE) if pan == 'false' else self.rej if pan == 'true' else '(if %s then %s else %s)' % (pan, self.rej, k(OPAQUE))
         if kind == 'if' and e['c'].get('e') != 'let':
             c = self.boolean(e['c'])
             saved = dict(self.env)
@@ -749,7 +777,7 @@ class RegionTr:
         if kind == 'block':
             return self.block_value_k(e['b'], k)
         if kind == 'macro' and e['name'] == 'panic':
-            return 'false'
+            return self.rej
         if kind == 'tuple':
             vals = []
 
@@ -820,12 +848,12 @@ class RegionTr:
             raise Untranslatable('match on an Option needs Some and None')
         saved = dict(self.env)
         if t[0] == 'some':
-            self.env[arms['Some'][0]] = ('N', t[1])
+            self.bind(arms['Some'][0], ('N', t[1]))
             r = on_body(arms['Some'][1])
             self.env = saved
             return r
         inner = self.name(arms['Some'][0])
-        self.env[arms['Some'][0]] = ('N', inner)
+        self.bind(arms['Some'][0], ('N', inner))
         s = on_body(arms['Some'][1])
         self.env = dict(saved)
         n = on_body(arms['None'][1])
@@ -847,18 +875,18 @@ class RegionTr:
             body = self.stmts(st, k)
             self.env = saved
             # unwrap() of None: the macro panics, the declaration is rejected
-            return '(match %s with Some %s => %s | None => false end)' % (t[1], inner, body)
+            return '(match %s with Some %s => %s | None => %s end)' % (t[1], inner, body, self.rej)
 
     def stmt(self, s, k):
         if s['s'] == 'let':
             def bind(v):
                 saved = dict(self.env)
                 if v is OPAQUE:
-                    self.env[s['name']] = ('opaque',)
+                    self.bind(s['name'], ('opaque',))
                     r = k()
                 else:
                     n = self.name(s['name'])
-                    self.env[s['name']] = (v[0], n)
+                    self.bind(s['name'], (v[0], n))
                     r = '(let %s := %s in %s)' % (n, v[1], k())
                 self.env = saved
                 return r
@@ -873,11 +901,11 @@ class RegionTr:
                 lets = []
                 for n, x in zip(names, v[1]):
                     if x is OPAQUE:
-                        self.env[n] = ('opaque',)
+                        self.bind(n, ('opaque',))
                     else:
                         c = self.name(n)
                         lets.append((c, x[1]))
-                        self.env[n] = (x[0], c)
+                        self.bind(n, (x[0], c))
                 r = k()
                 for c, x in reversed(lets):
                     r = '(let %s := %s in %s)' % (c, x, r)
@@ -890,20 +918,39 @@ class RegionTr:
             if kind == 'call' and e['f'].get('segs') == ['Ok'] and not s.get('semi'):
                 return k()
             if kind == 'call' and e['f'].get('segs') == ['Err'] and not s.get('semi'):
-                return 'false'
+                return self.rej
             if kind == 'return':
                 x = e['x']
                 if x and x.get('e') == 'call' and x['f'].get('segs') == ['Err']:
-                    return 'false'
+                    return self.rej
                 if self.whole and x and x.get('e') == 'call' and x['f'].get('segs') == ['Ok']:
                     return 'true'
                 raise Untranslatable('return of something other than Err')
             if kind == 'try' and e['x'].get('e') == 'call' and e['x']['f'].get('segs') == ['Err']:
-                return 'false'
+                return self.rej
             if kind == 'macro' and e['name'] == 'panic':
-                return 'false'
+                return self.rej
             if kind == 'macro' and e['name'] == 'assert' and e.get('args') and len(e['args']) == 1:
-                return '(if %s then %s else false)' % (self.boolean(e['args'][0]), k())
+                return '(if %s then %s else %s)' % (self.boolean(e['args'][0]), k(), self.rej)
+            if kind == 'assign' and e['l'].get('e') == 'path' and self.env.get(e['l']['segs'][0], ('',))[0] == 'bool':
+                var = e['l']['segs'][0]
+                saved = self.env[var]
+                self.env[var] = ('bool', self.boolean(e['r']))
+                out = k()
+                self.env[var] = saved
+                return out
+            if kind == 'mcall' and e['method'] == 'push' and len(e['args']) == 1 and e['recv'].get('e') == 'path' and \
+                    self.env.get(e['recv']['segs'][0], ('',))[0] == 'ranges' and e['args'][0].get('e') == 'struct' and \
+                    e['args'][0]['path'] == ['Range'] and sorted(x['name'] for x in e['args'][0]['fields']) == ['end', 'start']:
+                var = e['recv']['segs'][0]
+                fl = dict((x['name'], self.num(x['e'])) for x in e['args'][0]['fields'])
+                saved = self.env[var]
+                self.env[var] = ('ranges', '(%s ++ [(%s, %s)])' % (saved[1], fl['start'], fl['end']))
+                out = k()
+                self.env[var] = saved
+                return out
+            if kind == 'match' and e['x'].get('e') == 'path' and self.env.get(e['x']['segs'][0], ('',))[0] == 'ap':
+                return self.match_ap(e, k)
             if kind == 'assign' and e['l'].get('e') == 'path' and self.env.get(e['l']['segs'][0], ('',))[0] in ('opt', 'some'):
                 var = e['l']['segs'][0]
                 r = e['r']
@@ -927,7 +974,8 @@ class RegionTr:
                         bound = p['elems'][0]['name']
                         saved = dict(self.env)
                         inner = t[1] if t[0] == 'some' else self.name(bound)
-                        self.env[bound] = ('N', inner)
+                        k = self.scoped(k)
+                        self.bind(bound, ('N', inner))
                         a = self.stmts(e['t']['stmts'], k)
                         self.env = dict(saved)
                         if t[0] == 'some':
@@ -939,16 +987,46 @@ class RegionTr:
                     raise Untranslatable('if let')
                 cond = self.boolean(c)
                 saved = dict(self.env)
+                k = self.scoped(k)
                 a = self.stmts(e['t']['stmts'], k)
                 self.env = dict(saved)
                 b = self.else_branch(e['f'], k)
                 self.env = saved
                 return '(if %s then %s else %s)' % (cond, a, b)
             if kind == 'block':
-                return self.stmts(e['b']['stmts'], k)
+                return self.stmts(e['b']['stmts'], self.scoped(k))
             if kind == 'match' and e['x'].get('e') == 'path' and self.env.get(e['x']['segs'][0], ('',))[0] in ('opt', 'some'):
+                k = self.scoped(k)
                 return self.match_opt(e, lambda body: self.stmt({'s': 'expr', 'e': body, 'semi': True}, k))
         raise Untranslatable('statement ' + json.dumps(s)[:90])
+
+    def match_ap(self, e, k):
+        """match <automaton state> { Ctor(x, _) | Ctor2 => { stmts } .. _ => .. } as a statement"""
+        sv = self.env[e['x']['segs'][0]][1]
+        apt = ApTr(None, None)
+        branches = []
+        k = self.scoped(k)
+        for a in e['arms']:
+            if a['guard'] is not None or a['attrs']:
+                raise Untranslatable('guard on a state arm')
+            pats = ['_'] if a['pat']['p'] == 'wild' else None
+            saved = dict(self.env)
+            if pats is None:
+                pp = apt.pattern(a['pat'])
+                pats = [x[0] for x in pp]
+                names = set(tuple(sorted(x[1])) for x in pp)
+                if len(names) != 1:
+                    raise Untranslatable('or-pattern binding different names')
+                for n in pp[0][1]:
+                    self.bind(n, ('N', n))
+            b = a['body']
+            if b.get('e') == 'block':
+                body = self.stmts(b['b']['stmts'], k)
+            else:
+                body = self.stmt({'s': 'expr', 'e': b, 'semi': True}, k)
+            self.env = saved
+            branches.append('| %s => %s' % (' | '.join(pats), body))
+        return '(match %s with %s end)' % (sv, ' '.join(branches))
 
     def else_branch(self, f, k):
         if f is None:
@@ -965,6 +1043,35 @@ Definition first_diff := Eval vm_compute in region_first_diff src_region.
 Print first_diff.
 Theorem src_agrees : forall W rs sz count stride, src_region W rs sz count stride = region_checks W rs sz count stride.
 Proof. region_auto src_region. Qed.
+Print Assumptions src_agrees.
+"""
+
+
+FIN_UNIT = """
+Definition fin_states : list ap :=
+  [Reset; ResetOnlyRange; GotLower 3; GotDot1 3; GotDot2 3; GotEq 3; GotBoth 3 5; GotBoth 5 3; GotBoth 4 4; StrideStarted; StrideEq;
+   StrideDone 4; ARead; AWrite; AReadWrite].
+Definition fin_accs : list pacc :=
+  [pacc0; mkPacc [(0, 2)] (Some 1) false true None; mkPacc [(0, 2); (4, 6)] (Some 2) true false (Some 3); mkPacc [] (Some 1) true true None].
+Definition pacc_eqb (x y : pacc) : bool :=
+  (if list_eq_dec (fun p q : N * N => ltac:(decide equality; apply N.eq_dec)) (a_ranges x) (a_ranges y) then true else false)
+  && beq_opt N.eqb (a_rtoken x) (a_rtoken y) && Bool.eqb (a_get x) (a_get y) && Bool.eqb (a_set x) (a_set y)
+  && beq_opt N.eqb (a_stride x) (a_stride y).
+Definition first_diff := Eval vm_compute in
+  find (fun x => match x with (r, c, s, ia, t, a) =>
+                   negb (beq_opt pacc_eqb (src_finished r c s ia t a) (finished r c s ia t a)) end)
+       (flat_map (fun r => flat_map (fun c => flat_map (fun s => flat_map (fun ia => flat_map (fun t => map (fun a => (r, c, s, ia, t, a))
+                  fin_accs) [1; 2]) [true; false]) fin_states) [true; false]) [true; false]).
+Print first_diff.
+Theorem src_agrees : forall is_range has_count s in_array token_id a,
+  src_finished is_range has_count s in_array token_id a = finished is_range has_count s in_array token_id a.
+Proof.
+  intros is_range has_count s in_array token_id [rs rt g st sd].
+  unfold src_finished, finished; cbn [a_ranges a_rtoken a_get a_set a_stride push].
+  destruct s; destruct in_array; destruct is_range; destruct has_count; destruct rt; destruct rs; cbn [negb andb orb];
+    repeat match goal with |- context[if ?c then _ else _] => destruct c eqn:? end;
+    try reflexivity; exfalso; lia.
+Qed.
 Print Assumptions src_agrees.
 """
 
@@ -1120,6 +1227,44 @@ def generate(xl_by_file):
     attempt('src:bitenum count checks', 'check_explicit_conditional and the head of check_explicit_exhaustive (variant count against 2^N, '
             'the exhaustive claim) = the model\'s enum_cfg_check / enum_count_checks, every width, count and kind', b_enum)
 
+    def b_fin():
+        f = find_fn(pa['items'], 'parse_field')
+        c = find_node(f, lambda n: n.get('s') in ('let', 'letpat') and (n.get('name') == 'finished_argument' or
+                                                                       (n.get('pat') or {}).get('name') == 'finished_argument'))
+        if c is None or c['init'].get('e') != 'closure':
+            raise Untranslatable('closure finished_argument not found')
+        cl = c['init']
+        pn = []
+        for q in cl['params']:
+            q = q['pat'] if q['p'] == 'typed' else q
+            if q['p'] != 'ident':
+                raise Untranslatable('closure parameter')
+            pn.append(q['name'])
+        if len(pn) != 3:
+            raise Untranslatable('closure parameters')
+        env = {pn[0]: ('ap', 's'), pn[1]: ('bool', 'in_array'), pn[2]: ('N', 'token_id'),
+               'ranges': ('ranges', '(a_ranges a)'), 'ranges_token': ('opt', '(a_rtoken a)'), 'provide_getter': ('bool', '(a_get a)'),
+               'provide_setter': ('bool', '(a_set a)'), 'indexed_stride': ('opt', '(a_stride a)'), 'is_range': ('bool', 'is_range'),
+               'indexed_count': ('opt', '(if has_count then Some 0 else None)')}
+        tr = RegionTr(env, {}, whole=True)
+        tr.rej = 'None'
+
+        def fin():
+            def o(v):
+                return v[1] if v[0] == 'opt' else '(Some %s)' % v[1]
+            e = tr.env
+            return '(Some (mkPacc %s %s %s %s %s))' % (e['ranges'][1], o(e['ranges_token']), e['provide_getter'][1], e['provide_setter'][1],
+                                                      o(e['indexed_stride']))
+        body = cl['body']['b']['stmts'] if cl['body'].get('e') == 'block' else None
+        if body is None:
+            raise Untranslatable('closure body')
+        d = ('Definition src_finished (is_range has_count : bool) (s : ap) (in_array : bool) (token_id : N) (a : pacc) : option pacc :=\n'
+             '  %s.\n' % tr.stmts(body, fin))
+        return HEADER + 'From BB Require Import Tokens.\n' + d + FIN_UNIT, d
+    attempt('src:finished_argument', 'the closure finished_argument of parse_field (one range outside a list, bit/bits against single bit / '
+            'range, lower <= upper, end exclusive, access flags from r / w / rw, stride only for arrays) = Tokens.finished, every automaton '
+            'state, flag, token id and accumulated state', b_fin)
+
     attempt('src:ArgumentParser::take_*', 'the three transition functions of the attribute-argument automaton (take_literal, take_punct, '
             'take_ident) = the model\'s (Tokens.v), every state and every token', b_ap)
     return units
@@ -1216,6 +1361,29 @@ def probes_for(label, first_diff):
                 decl = '#[bitbybit::bitfield(u%d)]\npub struct P {\n    #[%s]\n    f: %s,\n}\n' % (W, attr, ty)
                 out.append({'what': 'the declaration `#[bitfield(u%d)] struct P { #[%s] f: %s }` is %s by the layout rules' % (
                     W, attr, ty, 'valid' if verdict else 'rejected'), 'lib': hdr + decl, 'expect_accept': verdict})
+    elif label == 'src:finished_argument':
+        for attr, ty, use, ok in (
+                ('bits(0..=3, w)', 'u4', 'pub fn t(p: P) -> u4 { p.f() }', False),
+                ('bits(0..=3, r)', 'u4', 'pub fn t(p: P) -> P { p.with_f(u4::new(1)) }', False),
+                ('bits(0..=3, r)', 'u4', 'pub fn t(mut p: P) { p.set_f(u4::new(1)) }', False),
+                ('bits(0..=3)', 'u4', 'pub fn t(p: P) -> u4 { p.f() }', False),
+                ('bits(0..=3, r)', 'u4', 'pub fn t(p: P) -> u4 { p.f() }', True),
+                ('bits(0..=3, w)', 'u4', 'pub fn t(mut p: P) -> P { p.set_f(u4::new(1)); p.with_f(u4::new(2)) }', True),
+                ('bits(0..=3, rw)', 'u4', 'pub fn t(p: P) -> u4 { p.with_f(u4::new(2)).f() }', True),
+                ('bits(w, 0..=3)', 'u4', 'pub fn t(p: P) -> u4 { p.f() }', False),
+                ('bits(stride = 8, 0..=3, rw)', '[u4; 2]', 'const _: () = assert!(P::new_with_raw_value(0x0300).f(1).value() == 3);', True),
+                ('bits(0..=3, rw, stride = 8)', '[u4; 2]', 'const _: () = assert!(P::new_with_raw_value(0x0300).f(1).value() == 3);', True),
+                ('bits(0..=3, rw)', '[u4; 2]', 'const _: () = assert!(P::new_with_raw_value(0x0030).f(1).value() == 3);', True),
+                ('bits(4..=2, rw)', 'u4', '', False), ('bit(0..=3, rw)', 'u4', '', False), ('bits(3, rw)', 'bool', '', False),
+                ('bit(3, rw)', 'bool', 'const _: () = assert!(P::new_with_raw_value(8).f());', True),
+                ('bits(3..=3, rw)', 'u1', 'const _: () = assert!(P::new_with_raw_value(8).f().value() == 1);', True),
+                ('bits(0..=3, 4..=7, rw)', 'u8', '', False), ('bits([0..=3], [4..=7], rw)', 'u8', '', False),
+                ('bits([4..=7, 0..=3], rw)', 'u8', 'const _: () = assert!(P::new_with_raw_value(0x00a5).f() == 0x5a);', True),
+                ('bits(0..=3, rw, stride = 4)', 'u4', '', False)):
+            decl = '#[bitbybit::bitfield(u16)]\npub struct P {\n    #[%s]\n    f: %s,\n}\n%s\n' % (attr, ty, use)
+            out.append({'what': 'a field declared #[%s] f: %s%s %s' % (attr, ty, ' used as `%s`' % use if use else '',
+                                                                      'compiles' if ok else 'is rejected'),
+                        'lib': hdr + decl, 'expect_accept': ok})
     elif label == 'src:ArgumentParser::take_*':
         for attr, ty, ok in (('bits(0..=3, rw)', 'u4', True), ('bit(0, r)', 'bool', True), ('bit(1, w)', 'bool', True),
                              ('bit(2)', 'bool', True), ('bits(0..=3, rw, stride = 4)', '[u4; 2]', True),
